@@ -42,3 +42,13 @@ CHECKS["C10"] = {
          "what": "RawParams.AddUpload over variables trees of depth <= 2 x paths of 1-2 segments from a 7-segment corpus"},
     ],
 }
+
+CHECKS["C03"] = {
+    "assumptions": ["gqlparser's parser and validator are interpreted from source (not stubbed)"],
+    "harnesses": [
+        {"pkg": "graphql/executor", "harness": "Harness_C03_gates", "setup": "Setup_C03_gates", "reach": ["gates.accepted", "gates.rejected", "hooks.checked"], "workers": 8,
+         "what": "Executor.CreateOperationContext on a 12-request corpus x 0..2 parameter mutators x 0..2 context mutators (each rejecting or not, symbolic) x cache {none, cold, warm} x suggestions on/off"},
+        {"pkg": "graphql/executor", "harness": "Harness_C03_hooks", "setup": "Setup_C03_hooks", "reach": ["hooks.checked"], "workers": 4,
+         "what": "processExtensions/DispatchOperation hook order for every list of 0..3 extensions over 5 hook subsets"},
+    ],
+}
